@@ -21,6 +21,11 @@ fn verif() -> String {
     std::env::var("VERIF_DIR").unwrap_or_else(|_| "/verif".to_string())
 }
 
+/// Harness names contain ':' '|' ',' - keep file names shell-friendly.
+fn safe(name: &str) -> String {
+    name.chars().map(|c| if c.is_ascii_alphanumeric() { c } else { '_' }).collect()
+}
+
 fn arg(args: &[String], k: &str) -> Option<String> {
     args.iter().position(|a| a == k).and_then(|i| args.get(i + 1).cloned())
 }
@@ -124,7 +129,7 @@ fn parent(prop: &str, tier: &str) -> i32 {
             .map(|e| {
                 let bound = if quick { e.quick_bound } else { e.thorough_bound };
                 let timeout = if quick { 120 } else { 3600 };
-                let cp = format!("{}/replays/{prop}/{prop}-loom-{}.checkpoint.json", verif(), e.name);
+                let cp = format!("{}/replays/{prop}/{prop}-loom-{}.checkpoint.json", verif(), safe(&e.name));
                 let _ = std::fs::remove_file(&cp);
                 let name = e.name.as_str();
                 s.spawn(move || run_child(name, bound, Some(&cp), timeout))
@@ -135,7 +140,7 @@ fn parent(prop: &str, tier: &str) -> i32 {
     for (e, o) in entries.iter().zip(outs) {
         let bound = if quick { e.quick_bound } else { e.thorough_bound };
         let timeout = if quick { 120 } else { 3600 };
-        let cp = format!("{}/replays/{prop}/{prop}-loom-{}.checkpoint.json", verif(), e.name);
+        let cp = format!("{}/replays/{prop}/{prop}-loom-{}.checkpoint.json", verif(), safe(&e.name));
         match classify(&o) {
             Verdict::Pass { schedules, outcomes, complete } => {
                 let _ = std::fs::remove_file(&cp);
@@ -167,7 +172,7 @@ fn parent(prop: &str, tier: &str) -> i32 {
                     machinery.push(format!("{}: failure did not replay deterministically ({} vs {:?})", e.name, msg, msgs));
                     continue;
                 }
-                let rp = format!("{}/replays/{prop}/{prop}-loom-{}.json", verif(), e.name);
+                let rp = format!("{}/replays/{prop}/{prop}-loom-{}.json", verif(), safe(&e.name));
                 let rf = json!({"engine": "loom", "bin": "lm", "property": prop, "tier": tier, "harness": e.name, "what": e.what, "preemption_bound": bound, "checkpoint": cp, "failure": msg,
                     "replay_cmd": format!("./check replay {rp}")});
                 std::fs::write(&rp, serde_json::to_string_pretty(&rf).unwrap()).unwrap();
